@@ -52,11 +52,13 @@ Proof. induction l as [|a t IH]; [right; intros []|]. destruct (feqb g a) eqn:E.
 Record punit := mkpunit { p_reads : list F; p_outs : list F; p_lock : F }.
 Definition ufiles (u:punit) : list F := p_lock u :: p_outs u.
 Definition write_outs (s:st) (l:list F) : st := fold_left (fun s f => write s f (want f)) l s.
+Lemma write_outs_cons s a t : write_outs s (a :: t) = write_outs (write s a (want a)) t.
+Proof. reflexivity. Qed.
 Lemma write_outs_notin l : forall s g, ~ In g l -> write_outs s l g = s g.
-Proof. induction l as [|a t IH]; intros s g H; [reflexivity|]. cbn. rewrite IH by (intros I; apply H; right; exact I).
+Proof. induction l as [|a t IH]; intros s g H; [reflexivity|]. rewrite write_outs_cons. rewrite IH by (intros I; apply H; right; exact I).
   apply write_other. intros ->. apply H; left; reflexivity. Qed.
 Lemma write_outs_in l : forall s g, In g l -> write_outs s l g = Some (want g).
-Proof. induction l as [|a t IH]; intros s g H; [destruct H|]. cbn. destruct (in_dec_F g t) as [I|N]; [apply IH, I|].
+Proof. induction l as [|a t IH]; intros s g H; [destruct H|]. rewrite write_outs_cons. destruct (in_dec_F g t) as [I|N]; [apply IH, I|].
   rewrite write_outs_notin by exact N. destruct H as [->|I]; [apply write_same|contradiction]. Qed.
 
 Definition run_punit (s:st) (u:punit) : option st :=
@@ -139,35 +141,35 @@ Proof. intros Hu R. unfold run_punit. rewrite (proj2 (all_intactb s (p_reads u))
 Lemma Done_frame s s' u : (forall g, In g (ufiles u) -> s' g = s g) -> Done s u -> Done s' u.
 Proof. intros A [L O]. split; [rewrite A by (left; reflexivity); exact L|]. intros f I. unfold intact. rewrite A by (right; exact I). apply O, I. Qed.
 
-(* the producer phase from a Good state: every unit ends up Done, nothing else changes *)
-Lemma units_phase : forall post pre s seen, units p = pre ++ post -> reads_chain seen post ->
+(* the producer phase from a Good state, possibly stopped after a prefix `a` of the remaining units: every unit that was
+   processed ends up Done, nothing outside the files of the processed units changes *)
+Lemma units_phase : forall a b pre s seen, units p = pre ++ a ++ b -> reads_chain seen (a ++ b) ->
   (forall f, In f seen -> intact s f) -> (forall v, In v pre -> Done s v) ->
-  (forall u, In u post -> s (p_lock u) = None \/ Done s u) ->
-  exists m, exec s (map SUnit post) = Some m /\ (forall v, In v (units p) -> Done m v) /\
-            (forall g, (forall u, In u post -> ~ In g (ufiles u)) -> m g = s g).
-Proof. induction post as [|u post IH]; intros pre s seen E RC Hseen Hpre Hpost.
-  - exists s. split; [reflexivity|]. split; [|reflexivity]. intros v Hv. rewrite E, app_nil_r in Hv. apply Hpre, Hv.
+  (forall u, In u a -> s (p_lock u) = None \/ Done s u) ->
+  exists m, exec s (map SUnit a) = Some m /\ (forall v, In v (pre ++ a) -> Done m v) /\
+            (forall g, (forall u, In u a -> ~ In g (ufiles u)) -> m g = s g).
+Proof. induction a as [|u a IH]; intros b pre s seen E RC Hseen Hpre Hpost.
+  - exists s. split; [reflexivity|]. split; [|reflexivity]. intros v Hv. rewrite app_nil_r in Hv. apply Hpre, Hv.
   - destruct RC as [Rin RC].
     assert (Hu: In u (units p)) by (rewrite E; apply in_or_app; right; left; reflexivity).
-    assert (Hin: forall v, In v (pre ++ post) -> In v (units p)).
-    { intros v Hv. rewrite E. apply in_app_or in Hv. apply in_or_app. destruct Hv as [Hv|Hv]; [left; exact Hv|right; right; exact Hv]. }
-    assert (Hne: forall v, In v (pre ++ post) -> v <> u).
-    { intros v Hv ->. pose proof (wf_nodup p W) as ND. rewrite E in ND. apply NoDup_remove_2 in ND. contradiction. }
-    (* the state after unit u, and the facts it satisfies *)
+    assert (Hin: forall v, In v (pre ++ a) -> In v (units p)).
+    { intros v Hv. rewrite E. apply in_app_or in Hv. apply in_or_app. destruct Hv as [Hv|Hv]; [left; exact Hv|right; right; apply in_or_app; left; exact Hv]. }
+    assert (Hne: forall v, In v (pre ++ a) -> v <> u).
+    { intros v Hv ->. pose proof (wf_nodup p W) as ND. rewrite E in ND. apply NoDup_remove_2 in ND. apply ND.
+      apply in_app_or in Hv. apply in_or_app. destruct Hv as [Hv|Hv]; [left; exact Hv|right; apply in_or_app; left; exact Hv]. }
     assert (S1: exists s1, exec_step s (SUnit u) = Some s1 /\ Done s1 u /\ (forall g, ~ In g (ufiles u) -> s1 g = s g)).
     { cbn. unfold resume_punit. destruct (Hpost u (or_introl eq_refl)) as [L|D].
       - rewrite L. apply run_punit_effect; [exact Hu|]. intros f I. apply Hseen, Rin, I.
       - destruct D as [L O]. rewrite L. exists s. split; [reflexivity|]. split; [split; assumption|reflexivity]. }
     destruct S1 as (s1 & X1 & D1 & Fr).
-    assert (Fr': forall v, In v (pre ++ post) -> forall g, In g (ufiles v) -> s1 g = s g).
+    assert (Fr': forall v, In v (pre ++ a) -> forall g, In g (ufiles v) -> s1 g = s g).
     { intros v Hv g I. apply Fr. intros I2. exact (wf_disj p W v u g (Hin v Hv) Hu (Hne v Hv) I I2). }
-    destruct (IH (pre ++ [u]) s1 (seen ++ p_outs u)) as (m & X & Dm & Frm).
+    destruct (IH b (pre ++ [u]) s1 (seen ++ p_outs u)) as (m & X & Dm & Frm).
     + rewrite E, <- app_assoc. reflexivity.
     + exact RC.
     + intros f I. apply in_app_or in I. destruct I as [I|I]; [|apply (proj2 D1), I].
       unfold intact. destruct (in_dec_F f (ufiles u)) as [J|J].
-      * destruct J as [<-|J]; [|apply (proj2 D1), J]. (* a seen file equal to the lock of u: impossible to be needed, but it is intact only if ... *)
-        (* the lock of u is not an output of an earlier unit; seen files are outputs or initial: handle by case on s1 *)
+      * destruct J as [<-|J]; [|apply (proj2 D1), J].
         rewrite (proj1 D1). pose proof (Hseen _ I) as K. unfold intact in K.
         destruct (Hpost u (or_introl eq_refl)) as [L|[L _]]; rewrite L in K; [discriminate|exact K].
       * rewrite Fr by exact J. apply Hseen, I.
@@ -176,6 +178,330 @@ Proof. induction post as [|u post IH]; intros pre s seen E RC Hseen Hpre Hpost.
     + intros w Hw. destruct (Hpost w (or_intror Hw)) as [L|D].
       * left. rewrite (Fr' w (in_or_app _ _ _ (or_intror Hw))) by (left; reflexivity). exact L.
       * right. apply (Done_frame s); [|exact D]. apply Fr'. apply in_or_app; right; exact Hw.
-    + exists m. split; [cbn [map exec]; rewrite X1; exact X|]. split; [exact Dm|].
-      intros g Hg. rewrite Frm by (intros w Hw; apply Hg; right; exact Hw). apply Fr. apply Hg. left; reflexivity. Qed.
+    + exists m. split; [cbn [map exec]; rewrite X1; exact X|]. split.
+      * intros v Hv. apply Dm. rewrite <- app_assoc. exact Hv.
+      * intros g Hg. rewrite Frm by (intros w Hw; apply Hg; right; exact Hw). apply Fr. apply Hg. left; reflexivity. Qed.
+
+(* ------------------------------------------------------------------ erasures and the consumption phase *)
+Lemma exec_erase l : forall s, exec s (map SErase l) = Some (fold_left erase l s).
+Proof. induction l as [|a t IH]; intros s; [reflexivity|]. cbn. apply IH. Qed.
+Lemma erase_all_notin l : forall s g, ~ In g l -> fold_left erase l s g = s g.
+Proof. induction l as [|a t IH]; intros s g H; [reflexivity|]. cbn. rewrite IH by (intros I; apply H; right; exact I).
+  apply erase_other. intros ->. apply H; left; reflexivity. Qed.
+Lemma erase_all_in l : forall s g, In g l -> fold_left erase l s g = None.
+Proof. induction l as [|a t IH]; intros s g H; [destruct H|]. cbn. destruct (in_dec_F g t) as [I|N]; [apply IH, I|].
+  rewrite erase_all_notin by exact N. destruct H as [->|I]; [apply erase_same|contradiction]. Qed.
+Lemma NoDup_app_inv' {A} (l l':list A) : NoDup (l ++ l') -> NoDup l /\ NoDup l' /\ (forall x, In x l -> ~ In x l').
+Proof. induction l as [|a t IH]; intros H; [split; [constructor|split; [exact H|intros x []]]|].
+  simpl in H. inversion H; subst. destruct (IH H3) as (I1 & I2 & I3). split; [|split; [exact I2|]].
+  - constructor; [intros X; apply H2; apply in_or_app; left; exact X|exact I1].
+  - intros x [->|Hx]; [intros X; apply H2; apply in_or_app; right; exact X|apply I3, Hx]. Qed.
+
+Lemma removes_ok rd : forall s, NoDup rd -> (forall f, In f rd -> s f <> None) -> exec s (map SRemove rd) = Some (fold_left erase rd s).
+Proof. induction rd as [|a t IH]; intros s ND H; [reflexivity|]. cbn. destruct (s a) eqn:E; [|exfalso; apply (H a); [left; reflexivity|exact E]].
+  inversion ND; subst. apply IH; [assumption|]. intros f I. rewrite erase_other by (intros ->; contradiction). apply H. right; exact I. Qed.
+
+Lemma consume_ok es : forall s, NoDup (flat_map snd es) -> (forall f, In f (flat_map snd es) -> intact s f) ->
+  (forall e, In e es -> ~ In (fst e) (flat_map snd es)) -> exists m, exec s (consume_steps es) = Some m.
+Proof. induction es as [|[f rd] t IH]; intros s ND HI HF; [exists s; reflexivity|].
+  cbn [consume_steps flat_map fst snd] in *. destruct (NoDup_app_inv' _ _ ND) as (N1 & N2 & N3).
+  cbn [app exec exec_step]. rewrite (proj2 (all_intactb s rd)) by (intros r I; apply HI, in_or_app; left; exact I).
+  rewrite exec_app. set (s1 := write s f (want f)).
+  assert (K: forall g, In g (rd ++ flat_map snd t) -> s1 g = s g).
+  { intros g I. apply write_other. intros ->. exact (HF (f, rd) (or_introl eq_refl) I). }
+  rewrite removes_ok; [|exact N1|intros r I; rewrite K by (apply in_or_app; left; exact I); rewrite (HI r) by (apply in_or_app; left; exact I); discriminate].
+  apply IH; [exact N2| |].
+  - intros g I. unfold intact. rewrite erase_all_notin by (intros J; exact (N3 g J I)). rewrite K by (apply in_or_app; right; exact I).
+    apply HI, in_or_app; right; exact I.
+  - intros e He J. apply (HF e (or_intror He)). apply in_or_app; right; exact J. Qed.
+
+Definition AllDone (s:st) : Prop := forall v, In v (units p) -> Done s v.
+
+Lemma rest_succeeds a : AllDone a -> exists m, exec a (rest_steps p) = Some m.
+Proof. intros AD. unfold rest_steps. rewrite exec_app.
+  replace (map (fun u => SErase (p_lock u)) (dropped p)) with (map SErase (map p_lock (dropped p))) by (rewrite map_map; reflexivity).
+  rewrite exec_erase. set (s1 := fold_left erase (map p_lock (dropped p)) a). rewrite exec_app.
+  destruct (consume_ok (entries p) s1) as (m & X).
+  - exact (wf_parts_nodup p W).
+  - intros f I. apply in_flat_map in I. destruct I as (e & He & I). destruct (wf_parts p W e f He I) as (u & Hu & Io).
+    unfold intact, s1. rewrite erase_all_notin.
+    + apply (proj2 (AD u (wf_drop p W u Hu))), Io.
+    + intros J. apply in_map_iff in J. destruct J as (v & E & Hv). apply (lock_not_out v u (wf_drop p W v Hv) (wf_drop p W u Hu)). rewrite E. exact Io.
+  - intros e He J. apply in_flat_map in J. destruct J as (e' & He' & J). destruct (wf_parts p W e' _ He' J) as (u & Hu & Io).
+    apply (wf_final p W e u He (wf_drop p W u Hu)). right; exact Io.
+  - rewrite X. rewrite exec_app, exec_erase. rewrite exec_erase. eexists; reflexivity. Qed.
+
+(* two states that agree except on files that are still to be (re)written and that nothing reads behave alike *)
+Fixpoint written (R:list pstep) : list F := match R with [] => [] | SFinal f _ :: t => f :: written t | _ :: t => written t end.
+Definition noread (X:F -> Prop) (t:pstep) : Prop :=
+  match t with SUnit _ => False | SErase _ => True | SFinal _ rd => forall r, In r rd -> ~ X r | SRemove f => ~ X f end.
+Lemma forallb_ext' {A} (f g:A -> bool) l : (forall x, In x l -> f x = g x) -> forallb f l = forallb g l.
+Proof. induction l as [|a t IH]; intros H; [reflexivity|]. cbn. rewrite (H a (or_introl eq_refl)), IH; [reflexivity|]. intros x I; apply H; right; exact I. Qed.
+
+Lemma rest_cong R : forall a b (X:F -> Prop), (forall t, In t R -> noread X t) -> (forall g, a g = b g \/ (X g /\ In g (written R))) ->
+  match exec a R, exec b R with Some a', Some b' => forall g, a' g = b' g | None, None => True | _, _ => False end.
+Proof. induction R as [|t R IH]; intros a b X NR AG.
+  - cbn. intros g. destruct (AG g) as [E|[_ []]]. exact E.
+  - pose proof (NR t (or_introl eq_refl)) as Nt. assert (NR': forall t', In t' R -> noread X t') by (intros t' I; apply NR; right; exact I).
+    assert (EQ: forall g, ~ X g -> a g = b g) by (intros g N; destruct (AG g) as [E|[Xg _]]; [exact E|contradiction]).
+    destruct t as [u|f|f rd|f]; cbn [noread] in Nt; [destruct Nt| | |]; cbn [exec exec_step].
+    + apply (IH _ _ X); [exact NR'|]. intros g. destruct (F_dec g f) as [->|D]; [left; rewrite !erase_same; reflexivity|].
+      rewrite !erase_other by exact D. exact (AG g).
+    + rewrite (forallb_ext' (intactb a) (intactb b) rd) by (intros r I; unfold intactb; rewrite (EQ r (Nt r I)); reflexivity).
+      destruct (forallb (intactb b) rd); [|exact Logic.I]. apply (IH _ _ X); [exact NR'|]. intros g. destruct (F_dec g f) as [->|D]; [left; rewrite !write_same; reflexivity|].
+      rewrite !write_other by exact D. destruct (AG g) as [E|[Xg I]]; [left; exact E|right; split; [exact Xg|]].
+      cbn in I. destruct I as [<-|I]; [contradiction|exact I].
+    + rewrite (EQ f Nt). destruct (b f); [|exact Logic.I]. apply (IH _ _ X); [exact NR'|]. intros g. destruct (F_dec g f) as [->|D]; [left; rewrite !erase_same; reflexivity|].
+      rewrite !erase_other by exact D. exact (AG g). Qed.
+
+Lemma written_erase l : written (map SErase l) = [].
+Proof. induction l; [reflexivity|exact IHl]. Qed.
+Lemma written_app a b : written (a ++ b) = written a ++ written b.
+Proof. induction a as [|t r IH]; [reflexivity|]. destruct t; cbn; rewrite ?IH; reflexivity. Qed.
+Lemma written_removes l : written (map SRemove l) = [].
+Proof. induction l; [reflexivity|exact IHl]. Qed.
+Lemma written_consume es : written (consume_steps es) = map fst es.
+Proof. induction es as [|[f rd] t IH]; [reflexivity|]. cbn [consume_steps flat_map]. cbn [app written fst snd map]. rewrite written_app, written_removes. cbn. f_equal. exact IH. Qed.
+Lemma written_rest : written (rest_steps p) = map fst (entries p).
+Proof. unfold rest_steps. rewrite !written_app, written_consume, !written_erase.
+  replace (map (fun u => SErase (p_lock u)) (dropped p)) with (map SErase (map p_lock (dropped p))) by (rewrite map_map; reflexivity).
+  rewrite written_erase, app_nil_r. reflexivity. Qed.
+
+Lemma part_is_unitfile e f : In e (entries p) -> In f (snd e) -> unitfile p f.
+Proof. intros He I. destruct (wf_parts p W e f He I) as (u & Hu & Io). exists u. split; [apply (wf_drop p W), Hu|right; exact Io]. Qed.
+Lemma rest_noread : forall t, In t (rest_steps p) -> noread (isfinal p) t.
+Proof. intros t I. unfold rest_steps in I. repeat (apply in_app_or in I; destruct I as [I|I]).
+  - apply in_map_iff in I. destruct I as (u & <- & _). exact Logic.I.
+  - unfold consume_steps in I. apply in_flat_map in I. destruct I as (e & He & [<-|I]).
+    + intros r Ir Hf. exact (final_not_unitfile r Hf (part_is_unitfile e r He Ir)).
+    + apply in_map_iff in I. destruct I as (f & <- & If). intros Hf. exact (final_not_unitfile f Hf (part_is_unitfile e f He If)).
+  - apply in_map_iff in I. destruct I as (f & <- & _). exact Logic.I.
+  - apply in_map_iff in I. destruct I as (f & <- & _). exact Logic.I. Qed.
+
+Definition ufl : list F := flat_map ufiles (units p).
+Lemma ufl_spec g : In g ufl <-> unitfile p g.
+Proof. unfold ufl, unitfile. rewrite in_flat_map. reflexivity. Qed.
+
+(* ------------------------------------------------------------------ from a Good state the resumed program reaches the final state of the clean run *)
+Theorem good_resumes : forall c s0, Good p c -> Good p s0 ->
+  (forall g, ~ unitfile p g -> ~ isfinal p g -> c g = s0 g) ->
+  exists s' s'', exec c (steps p) = Some s' /\ exec s0 (steps p) = Some s'' /\ forall g, s' g = s'' g.
+Proof. intros c s0 Gc G0 AG. unfold steps.
+  destruct (units_phase (units p) [] [] c []) as (mc & Xc & Dc & Fc);
+    [rewrite app_nil_r; reflexivity|rewrite app_nil_r; exact (wf_reads p W)|intros f []|intros v []|exact Gc|].
+  destruct (units_phase (units p) [] [] s0 []) as (m0 & X0 & D0 & F0);
+    [rewrite app_nil_r; reflexivity|rewrite app_nil_r; exact (wf_reads p W)|intros f []|intros v []|exact G0|].
+  cbn [app] in Dc, D0. rewrite !exec_app, Xc, X0.
+  destruct (rest_succeeds mc Dc) as (s' & Rc). destruct (rest_succeeds m0 D0) as (s'' & R0).
+  exists s', s''. split; [exact Rc|split; [exact R0|]].
+  pose proof (rest_cong (rest_steps p) mc m0 (isfinal p) rest_noread) as CG. rewrite Rc, R0 in CG. apply CG.
+  intros g. destruct (in_dec_F g ufl) as [U|U].
+  - left. apply ufl_spec in U. destruct U as (u & Hu & [<-|I]).
+    + rewrite (proj1 (Dc u Hu)), (proj1 (D0 u Hu)). reflexivity.
+    + pose proof (proj2 (Dc u Hu) g I) as A. pose proof (proj2 (D0 u Hu) g I) as B. unfold intact in A, B. rewrite A, B. reflexivity.
+  - assert (NU: ~ unitfile p g) by (intros X; apply U, ufl_spec, X).
+    assert (Ec: mc g = c g) by (apply Fc; intros u Hu I; apply NU; exists u; split; assumption).
+    assert (E0: m0 g = s0 g) by (apply F0; intros u Hu I; apply NU; exists u; split; assumption).
+    rewrite Ec, E0. destruct (in_dec_F g (map fst (entries p))) as [Fi|Fi].
+    + right. split; [exact Fi|rewrite written_rest; exact Fi].
+    + left. apply AG; assumption. Qed.
+
+(* ------------------------------------------------------------------ every crash state of the clean run is Good *)
+Definition touched (t:pstep) : list F := match t with SUnit u => p_outs u | _ => [] end.
+(* c is what a kill can leave: `pre` was executed, `cur` was in progress (for a unit: any of its outputs in any condition, its
+   lock not yet written), and every final file is in an arbitrary condition *)
+Definition crash_state (s0 c:st) : Prop :=
+  exists pre cur post m, steps p = pre ++ cur :: post /\ exec s0 pre = Some m /\
+                         forall g, ~ In g (touched cur) -> ~ isfinal p g -> c g = m g.
+
+Lemma good_transfer c m : (forall g, unitfile p g -> c g = m g) -> Good p m -> Good p c.
+Proof. intros A G u Hu. destruct (G u Hu) as [L|D]; [left|right].
+  - rewrite A; [exact L|exists u; split; [exact Hu|left; reflexivity]].
+  - apply (Done_frame m); [|exact D]. intros g I. apply A. exists u; split; assumption. Qed.
+
+Definition allowed (A:punit -> Prop) (t:pstep) : Prop :=
+  match t with
+  | SUnit _ => False
+  | SFinal f _ => ~ unitfile p f
+  | SErase f | SRemove f => (exists u, In u (units p) /\ f = p_lock u) \/ (exists u, In u (units p) /\ A u /\ In f (p_outs u))
+  end.
+Lemma erase_none s f g : s g = None -> erase s f g = None.
+Proof. intros H. unfold erase. destruct (feqb g f); [reflexivity|exact H]. Qed.
+
+Lemma ge_erase A s f : GoodExcept p A s ->
+  ((exists u, In u (units p) /\ f = p_lock u) \/ (exists u, In u (units p) /\ A u /\ In f (p_outs u))) -> GoodExcept p A (erase s f).
+Proof. intros G Hf v Hv. destruct (G v Hv) as [GA GD]. split; [intros Av; apply erase_none, GA, Av|].
+  destruct GD as [L|D]; [left; apply erase_none, L|].
+  destruct (in_dec_F f (ufiles v)) as [[E|I]|N].
+  - left. rewrite <- E. apply erase_same.
+  - destruct Hf as [(u & Hu & ->)|(u & Hu & Au & Io)]; [exfalso; exact (lock_not_out u v Hu Hv I)|].
+    rewrite (out_owner u v f Hu Hv Io I) in Au. left. apply erase_none, GA, Au.
+  - right. apply (Done_frame s); [|exact D]. intros g Ig. apply erase_other. intros ->. contradiction. Qed.
+Lemma ge_frame A s s' : (forall g, unitfile p g -> s' g = s g) -> GoodExcept p A s -> GoodExcept p A s'.
+Proof. intros Fr G v Hv. destruct (G v Hv) as [GA GD].
+  assert (L: s' (p_lock v) = s (p_lock v)) by (apply Fr; exists v; split; [exact Hv|left; reflexivity]).
+  split; [intros Av; rewrite L; apply GA, Av|]. destruct GD as [N|D]; [left; rewrite L; exact N|right].
+  apply (Done_frame s); [|exact D]. intros g I. apply Fr. exists v; split; assumption. Qed.
+Lemma ge_step A s t s' : allowed A t -> GoodExcept p A s -> exec_step s t = Some s' -> GoodExcept p A s'.
+Proof. intros Al G X. destruct t as [u|f|f rd|f]; cbn in Al, X.
+  - destruct Al.
+  - inversion X; subst. apply ge_erase; assumption.
+  - destruct (forallb (intactb s) rd); [|discriminate]. inversion X; subst. apply (ge_frame A s); [|exact G].
+    intros g U. apply write_other. intros ->. contradiction.
+  - destruct (s f); [|discriminate]. inversion X; subst. apply ge_erase; assumption. Qed.
+Lemma ge_exec A R : forall s m, (forall t, In t R -> allowed A t) -> GoodExcept p A s -> exec s R = Some m -> GoodExcept p A m.
+Proof. induction R as [|t R IH]; intros s m Al G X; [inversion X; subst; exact G|]. cbn in X.
+  destruct (exec_step s t) as [s1|] eqn:E; [|discriminate].
+  apply (IH s1); [intros t' I; apply Al; right; exact I| |exact X]. apply (ge_step A s t); [apply Al; left; reflexivity|exact G|exact E]. Qed.
+Lemma ge_good A s : GoodExcept p A s -> Good p s.
+Proof. intros G u Hu. exact (proj2 (G u Hu)). Qed.
+Lemma ge_strengthen (A A':punit -> Prop) s : GoodExcept p A s -> (forall u, In u (units p) -> A' u -> s (p_lock u) = None) -> GoodExcept p A' s.
+Proof. intros G H u Hu. split; [apply H, Hu|exact (proj2 (G u Hu))]. Qed.
+
+Lemma exec_app_some a b s m : exec s (a ++ b) = Some m -> exists s1, exec s a = Some s1 /\ exec s1 b = Some m.
+Proof. rewrite exec_app. destruct (exec s a) as [s1|]; [|discriminate]. intros H. exists s1. split; [reflexivity|exact H]. Qed.
+Lemma prefix_app {A} (X:list A) : forall Y pre post, X ++ Y = pre ++ post ->
+  (exists r, X = pre ++ r) \/ (exists r, pre = X ++ r /\ Y = r ++ post).
+Proof. induction X as [|x X IH]; intros Y pre post E.
+  - right. exists pre. split; [reflexivity|exact E].
+  - destruct pre as [|a pre]; [left; exists (x :: X); reflexivity|]. cbn in E. inversion E; subst.
+    destruct (IH Y pre post H1) as [(r & ->)|(r & -> & ->)]; [left; exists r; reflexivity|right; exists r; split; reflexivity]. Qed.
+
+Definition A0 : punit -> Prop := fun _ => False.
+Definition AD : punit -> Prop := fun u => In u (dropped p).
+Definition AAll : punit -> Prop := fun _ => True.
+Definition S_Dr := map (fun u => SErase (p_lock u)) (dropped p).
+Definition S_Co := consume_steps (entries p).
+Definition S_CL := map SErase (cl_locks p).
+Definition S_CD := map SErase (cl_data p).
+
+Lemma allowed_Dr t : In t S_Dr -> forall A, allowed A t.
+Proof. intros I A. apply in_map_iff in I. destruct I as (u & <- & Hu). left. exists u. split; [apply (wf_drop p W), Hu|reflexivity]. Qed.
+Lemma allowed_Co t : In t S_Co -> allowed AD t.
+Proof. intros I. unfold S_Co, consume_steps in I. apply in_flat_map in I. destruct I as (e & He & [<-|I]).
+  - cbn. intros (u & Hu & Iu). exact (wf_final p W e u He Hu Iu).
+  - apply in_map_iff in I. destruct I as (f & <- & If). destruct (wf_parts p W e f He If) as (u & Hu & Io).
+    right. exists u. split; [apply (wf_drop p W), Hu|split; [exact Hu|exact Io]]. Qed.
+Lemma allowed_CL t : In t S_CL -> forall A, allowed A t.
+Proof. intros I A. apply in_map_iff in I. destruct I as (f & <- & If). left. exact (wf_cl_locks' p W f If). Qed.
+Lemma allowed_CD t : In t S_CD -> allowed AAll t.
+Proof. intros I. apply in_map_iff in I. destruct I as (f & <- & If). destruct (wf_cl_data p W f If) as (u & Hu & Io).
+  right. exists u. split; [exact Hu|split; [exact Logic.I|exact Io]]. Qed.
+Lemma prefix_in {A} (X pre r:list A) : X = pre ++ r -> forall t, In t pre -> In t X.
+Proof. intros -> t I. apply in_or_app; left; exact I. Qed.
+
+Lemma good_CD s pre post m : GoodExcept p AAll s -> S_CD = pre ++ post -> exec s pre = Some m -> Good p m.
+Proof. intros G E X. apply (ge_good AAll), (ge_exec AAll pre s); [|exact G|exact X]. intros t I. apply allowed_CD, (prefix_in _ _ _ E), I. Qed.
+Lemma good_CL s pre post m : GoodExcept p AD s -> S_CL ++ S_CD = pre ++ post -> exec s pre = Some m -> Good p m.
+Proof. intros G E X. destruct (prefix_app _ _ _ _ E) as [(r & E1)|(r & -> & E2)].
+  - apply (ge_good AD), (ge_exec AD pre s); [|exact G|exact X]. intros t I. apply allowed_CL, (prefix_in _ _ _ E1), I.
+  - apply exec_app_some in X. destruct X as (s1 & X1 & X2).
+    assert (G1: GoodExcept p AD s1) by (apply (ge_exec AD S_CL s); [intros t I; apply allowed_CL, I|exact G|exact X1]).
+    apply (good_CD s1 r post); [|exact E2|exact X2]. apply (ge_strengthen AD); [exact G1|]. intros u Hu _.
+    unfold S_CL in X1. rewrite exec_erase in X1. inversion X1; subst. apply erase_all_in, (wf_cl_locks p W), Hu. Qed.
+Lemma good_Co s pre post m : GoodExcept p AD s -> S_Co ++ S_CL ++ S_CD = pre ++ post -> exec s pre = Some m -> Good p m.
+Proof. intros G E X. destruct (prefix_app _ _ _ _ E) as [(r & E1)|(r & -> & E2)].
+  - apply (ge_good AD), (ge_exec AD pre s); [|exact G|exact X]. intros t I. apply allowed_Co, (prefix_in _ _ _ E1), I.
+  - apply exec_app_some in X. destruct X as (s1 & X1 & X2). apply (good_CL s1 r post); [|exact E2|exact X2].
+    apply (ge_exec AD S_Co s); [intros t I; apply allowed_Co, I|exact G|exact X1]. Qed.
+Lemma good_Dr s pre post m : GoodExcept p A0 s -> rest_steps p = pre ++ post -> exec s pre = Some m -> Good p m.
+Proof. intros G E X. unfold rest_steps in E. fold S_Dr S_Co S_CL S_CD in E. destruct (prefix_app _ _ _ _ E) as [(r & E1)|(r & -> & E2)].
+  - apply (ge_good A0), (ge_exec A0 pre s); [|exact G|exact X]. intros t I. apply allowed_Dr, (prefix_in _ _ _ E1), I.
+  - apply exec_app_some in X. destruct X as (s1 & X1 & X2). apply (good_Co s1 r post); [|exact E2|exact X2].
+    assert (G1: GoodExcept p A0 s1) by (apply (ge_exec A0 S_Dr s); [intros t I; apply allowed_Dr, I|exact G|exact X1]).
+    apply (ge_strengthen A0); [exact G1|]. intros u Hu Du. unfold S_Dr in X1.
+    replace (map (fun u => SErase (p_lock u)) (dropped p)) with (map SErase (map p_lock (dropped p))) in X1 by (rewrite map_map; reflexivity).
+    rewrite exec_erase in X1. inversion X1; subst. apply erase_all_in, in_map, Du. Qed.
+
+Lemma rest_touched t : In t (rest_steps p) -> touched t = [].
+Proof. intros I. unfold rest_steps in I. repeat (apply in_app_or in I; destruct I as [I|I]).
+  - apply in_map_iff in I. destruct I as (u & <- & _). reflexivity.
+  - unfold consume_steps in I. apply in_flat_map in I. destruct I as (e & _ & [<-|I]); [reflexivity|].
+    apply in_map_iff in I. destruct I as (f & <- & _). reflexivity.
+  - apply in_map_iff in I. destruct I as (f & <- & _). reflexivity.
+  - apply in_map_iff in I. destruct I as (f & <- & _). reflexivity. Qed.
+
+Theorem crash_good : forall s0 c, (forall u, In u (units p) -> s0 (p_lock u) = None) -> crash_state s0 c -> Good p c.
+Proof. intros s0 c Fresh (pre & cur & post & m & E & X & AG). unfold steps in E.
+  destruct (prefix_app _ _ _ _ E) as [(r & E1)|(r & -> & E2)].
+  - (* the kill hits the producer phase *)
+    destruct r as [|t r].
+    + (* exactly at its end: cur is the first step of the rest *)
+      rewrite app_nil_r in E1. subst pre. apply app_inv_head in E.
+      destruct (units_phase (units p) [] [] s0 []) as (mU & XU & DU & _);
+        [rewrite app_nil_r; reflexivity|rewrite app_nil_r; exact (wf_reads p W)|intros f []|intros v []|intros u Hu; left; apply Fresh, Hu|].
+      rewrite X in XU. inversion XU; subst mU. cbn [app] in DU.
+      apply (good_transfer c m).
+      * intros g U. apply AG; [rewrite (rest_touched cur) by (rewrite E; left; reflexivity); intros []|intros Fi; exact (final_not_unitfile g Fi U)].
+      * intros u Hu. right. apply DU, Hu.
+    + (* inside it *)
+      assert (Ec: pre ++ cur :: post = (pre ++ t :: r) ++ rest_steps p) by (rewrite <- E1; exact (eq_sym E)).
+      rewrite <- app_assoc in Ec. apply app_inv_head in Ec. cbn in Ec. inversion Ec; subst t. clear Ec.
+      apply map_eq_app in E1. destruct E1 as (l1 & l2 & EU & M1 & M2). apply map_eq_cons in M2. destruct M2 as (u & tl & -> & <- & _).
+      subst pre.
+      destruct (units_phase l1 (u :: tl) [] s0 []) as (m' & X' & Dm & Fm);
+        [exact EU|rewrite <- EU; exact (wf_reads p W)|intros f []|intros v []|intros w Hw; left; apply Fresh; rewrite EU; apply in_or_app; left; exact Hw|].
+      rewrite X in X'. inversion X'; subst m'. cbn [app] in Dm.
+      pose proof (wf_nodup p W) as ND. rewrite EU in ND. destruct (NoDup_app_inv' _ _ ND) as (_ & ND2 & Sep).
+      assert (Hu: In u (units p)) by (rewrite EU; apply in_or_app; right; left; reflexivity).
+      intros w Hw. rewrite EU in Hw. apply in_app_or in Hw. destruct Hw as [Hw|Hw].
+      * right. assert (Hw': In w (units p)) by (rewrite EU; apply in_or_app; left; exact Hw).
+        apply (Done_frame m); [|apply Dm, Hw]. intros g I. apply AG.
+        -- cbn. intros Io. apply (wf_disj p W w u g Hw' Hu); [intros ->; apply (Sep u Hw); left; reflexivity|exact I|right; exact Io].
+        -- intros Fi. apply (final_not_unitfile g Fi). exists w. split; assumption.
+      * left. assert (Hw': In w (units p)) by (rewrite EU; apply in_or_app; right; exact Hw).
+        rewrite AG; [| |].
+        -- rewrite Fm; [apply Fresh, Hw'|]. intros v Hv I. assert (Hv': In v (units p)) by (rewrite EU; apply in_or_app; left; exact Hv).
+           apply (wf_disj p W w v (p_lock w) Hw' Hv'); [intros ->; exact (Sep v Hv Hw)|left; reflexivity|exact I].
+        -- cbn. exact (lock_not_out w u Hw' Hu).
+        -- intros Fi. apply (final_not_unitfile _ Fi). exists w. split; [exact Hw'|left; reflexivity].
+  - (* the kill hits a later phase: all units are done, Good is maintained by GoodExcept *)
+    apply exec_app_some in X. destruct X as (mU & XU & Xr).
+    destruct (units_phase (units p) [] [] s0 []) as (mU' & XU' & DU & _);
+      [rewrite app_nil_r; reflexivity|rewrite app_nil_r; exact (wf_reads p W)|intros f []|intros v []|intros u Hu; left; apply Fresh, Hu|].
+    rewrite XU in XU'. inversion XU'; subst mU'. cbn [app] in DU.
+    assert (Gm: Good p m).
+    { apply (good_Dr mU r (cur :: post)); [|exact E2|exact Xr]. intros u Hu. split; [intros []|right; apply DU, Hu]. }
+    apply (good_transfer c m); [|exact Gm]. intros g U. apply AG.
+    + rewrite (rest_touched cur) by (rewrite E2; apply in_or_app; right; left; reflexivity). intros [].
+    + intros Fi. exact (final_not_unitfile g Fi U). Qed.
+
+(* the crash state agrees with the initial state outside unit files and finals: the program touches nothing else *)
+Lemma exec_step_frame s t s' : exec_step s t = Some s' -> In t (steps p) -> forall g, ~ unitfile p g -> ~ isfinal p g -> s' g = s g.
+Proof. intros X I g NU NF. unfold steps in I. apply in_app_or in I. destruct I as [I|I].
+  - apply in_map_iff in I. destruct I as (u & <- & Hu). cbn in X. unfold resume_punit in X. destruct (s (p_lock u)); [inversion X; reflexivity|].
+    unfold run_punit in X. destruct (forallb (intactb s) (p_reads u)); [|discriminate]. inversion X; subst.
+    rewrite write_other by (intros ->; apply NU; exists u; split; [exact Hu|left; reflexivity]).
+    apply write_outs_notin. intros Io. apply NU. exists u. split; [exact Hu|right; exact Io].
+  - pose proof (rest_noread t I) as _. unfold rest_steps in I. repeat (apply in_app_or in I; destruct I as [I|I]).
+    + apply in_map_iff in I. destruct I as (u & <- & Hu). cbn in X. inversion X; subst. apply erase_other. intros ->. apply NU.
+      exists u. split; [apply (wf_drop p W), Hu|left; reflexivity].
+    + unfold consume_steps in I. apply in_flat_map in I. destruct I as (e & He & [<-|I]).
+      * cbn in X. destruct (forallb (intactb s) (snd e)); [|discriminate]. inversion X; subst. apply write_other. intros ->. apply NF.
+        unfold isfinal. apply in_map, He.
+      * apply in_map_iff in I. destruct I as (f & <- & If). cbn in X. destruct (s f); [|discriminate]. inversion X; subst.
+        apply erase_other. intros ->. exact (NU (part_is_unitfile e f He If)).
+    + apply in_map_iff in I. destruct I as (f & <- & If). cbn in X. inversion X; subst. apply erase_other. intros ->.
+      destruct (wf_cl_locks' p W f If) as (u & Hu & ->). apply NU. exists u. split; [exact Hu|left; reflexivity].
+    + apply in_map_iff in I. destruct I as (f & <- & If). cbn in X. inversion X; subst. apply erase_other. intros ->.
+      destruct (wf_cl_data p W f If) as (u & Hu & Io). apply NU. exists u. split; [exact Hu|right; exact Io]. Qed.
+Lemma exec_frame R : forall s m, exec s R = Some m -> (forall t, In t R -> In t (steps p)) -> forall g, ~ unitfile p g -> ~ isfinal p g -> m g = s g.
+Proof. induction R as [|t R IH]; intros s m X Sub g NU NF; [inversion X; reflexivity|]. cbn in X.
+  destruct (exec_step s t) as [s1|] eqn:E; [|discriminate].
+  rewrite (IH s1 m X (fun t' I => Sub t' (or_intror I)) g NU NF). exact (exec_step_frame s t s1 E (Sub t (or_introl eq_refl)) g NU NF). Qed.
+
+(* ------------------------------------------------------------------ the theorem *)
+Theorem resume_sound : forall s0 c, (forall u, In u (units p) -> s0 (p_lock u) = None) -> crash_state s0 c ->
+  exists s' s'', exec c (steps p) = Some s' /\ exec s0 (steps p) = Some s'' /\ forall g, s' g = s'' g.
+Proof. intros s0 c Fresh CS. apply good_resumes.
+  - exact (crash_good s0 c Fresh CS).
+  - intros u Hu. left. apply Fresh, Hu.
+  - destruct CS as (pre & cur & post & m & E & X & AG). intros g NU NF.
+    rewrite AG; [| |exact NF].
+    + apply (exec_frame pre s0 m X); [|exact NU|exact NF]. intros t I. rewrite E. apply in_or_app; left; exact I.
+    + destruct cur as [u| | |]; cbn; try (intros []). intros Io. apply NU. exists u. split; [|right; exact Io].
+      assert (I: In (SUnit u) (steps p)) by (rewrite E; apply in_or_app; right; left; reflexivity).
+      unfold steps in I. apply in_app_or in I. destruct I as [I|I].
+      * apply in_map_iff in I. destruct I as (u' & Eu & Hu). inversion Eu; subst. exact Hu.
+      * apply rest_noread in I. destruct I. Qed.
 End Invariant.
